@@ -26,6 +26,7 @@ INDENTS = ["\t", " ", "  ", "", "    "]
 VCOLS = [0, 0, 5, 12, 20, 40, "auto"]
 SEPS = ["\n\n", "\n\n", "\n", "", " ", "\n\n\n", "\n \n"]
 
+TRACE_MAX_CHARS = 250_000           # sampled tracing of larger texts costs minutes; those rely on the watchdog + traced re-run
 K_LINE, C_LINE = 200, 20000        # deterministic step budget: line events <= K*len(text)+C
 
 
@@ -116,7 +117,7 @@ def generate(rng, tier, prop):
     if prop in ("C01", "C03"):
         r = rng.random()
         via = "string" if prop == "C03" else rng.choice(["file", "string"])
-        big_p = 0.12 if tier == "quick" else 0.25
+        big_p = 0.12 if tier == "quick" else 0.10
         if r < big_p:
             fam = rng.choice(docgen.BIG_FAMILIES)
             if tier == "quick":
@@ -124,7 +125,7 @@ def generate(rng, tier, prop):
                 if fam == "long_runs" and rng.random() < 0.3:
                     scale = rng.choice([30_000, 100_000])     # a quadratic scan inside the regex engine only shows at this size
             else:
-                scale = rng.choice([300, 1200, 3000, 10_000, 30_000, 100_000])
+                scale = rng.choice([300, 1200, 1200, 3000, 3000, 10_000, 10_000, 30_000, 30_000, 100_000])
             if fam in ("deep_nesting", "deep_unclosed", "deep_nesting_blocks", "deep_quote_nesting"):
                 scale = min(scale, 20_000)
             cfg["docs"].append({"big": fam, "scale": scale, "seed": rng.randrange(1 << 30)})
@@ -407,7 +408,7 @@ def execute(run, props, force_trace=False):
     def guarded(step, what, fn, text_len):
         """C01: nothing may escape.  Returns (ok, value)."""
         try:
-            if trace:
+            if trace and (text_len <= TRACE_MAX_CHARS or force_trace):
                 val, n = traced(fn, K_LINE * max(text_len, 1) + C_LINE)
                 res.probes["traced_calls"] += 1
                 return True, val
